@@ -525,15 +525,23 @@ func (s *subsetter) SubsetGlyf(oldOutlines *glyf.Outlines) *glyf.Outlines {
 		newOutlines.Glyphs[newGid] = oldOutlines.Glyphs[oldGid].FixComponents(s.newGid)
 	}
 
-	newOutlines.Widths = make([]funit.Int16, len(s.glyphs))
-	for newGid, oldGid := range s.glyphs {
-		newOutlines.Widths[newGid] = oldOutlines.Widths[oldGid]
+	// Fonts may have no widths (missing "hmtx" table), and the list of glyph
+	// names may be shorter than the list of glyphs.
+	if oldOutlines.Widths != nil {
+		newOutlines.Widths = make([]funit.Int16, len(s.glyphs))
+		for newGid, oldGid := range s.glyphs {
+			if int(oldGid) < len(oldOutlines.Widths) {
+				newOutlines.Widths[newGid] = oldOutlines.Widths[oldGid]
+			}
+		}
 	}
 
 	if oldOutlines.Names != nil {
 		newOutlines.Names = make([]string, len(s.glyphs))
 		for newGid, oldGid := range s.glyphs {
-			newOutlines.Names[newGid] = oldOutlines.Names[oldGid]
+			if int(oldGid) < len(oldOutlines.Names) {
+				newOutlines.Names[newGid] = oldOutlines.Names[oldGid]
+			}
 		}
 	}
 
